@@ -557,6 +557,34 @@ def nd_ops(axes):
 
     ops.append(('transform', transform(True)))
     ops.append(('itransform', transform(False)))
+
+    # one direction at a time, addressed by its non-negative and by its negative index (array with a leading component
+    # dimension, as the problem classes hold it): the 1-D kernel of THAT direction applied along THAT direction
+    def transform_axis(ax, forward, negative):
+        def f():
+            Kax = kernel(ax, forward)
+            worst, where = 0.0, None
+            scale = C_ULP * EPS * _logf(shape[ax]) * float(np.max(np.abs(Kax)))
+            arg = (ax - nd,) if negative else (ax,)
+            for comps in (1, 2):
+                for idx in range(int(np.prod(shape))):
+                    u = np.zeros((comps,) + shape, dtype=complex)
+                    u.reshape(comps, -1)[comps - 1, idx] = 1.0
+                    out = np.asarray(H.transform(u, axes=arg) if forward else H.itransform(u, axes=arg))
+                    ref = np.moveaxis(np.tensordot(Kax, u, axes=([1], [ax + 1])), 0, ax + 1)
+                    if out.shape != ref.shape:
+                        return np.inf, {'shape': list(out.shape), 'expected_shape': list(ref.shape)}
+                    r, w = _cmp(out.reshape(-1), ref.reshape(-1), scale)
+                    if r > worst:
+                        worst, where = r, dict(w, basis_tensor=idx, components=comps)
+            return worst, where
+
+        return f
+
+    for ax in range(nd):
+        for forward in (True, False):
+            for negative in (False, True):
+                ops.append((f"{'transform' if forward else 'itransform'}[axes=({ax - nd if negative else ax},)]", transform_axis(ax, forward, negative)))
     return ops
 
 
